@@ -30,3 +30,5 @@ fn c01_precedence_order() {
     kani::cover!(x == LogicalOp::And && y == LogicalOp::Or);
 }
 
+// A per-alias harness (`OrderingOp::lex("ge 1")` and `">= 1"`, 5 + 6 discarded errors, unwind 3)
+// was also tried: it did not finish in 35 minutes.
